@@ -599,6 +599,48 @@ class Program:
                 return out
             self.emit('lifecycle of a temporary interface', life)
 
+            def class_life():
+                # a short-lived class with declarations of every kind (its specifications refer to it and it to them)
+                self.serial += 1
+                I1, I2 = rng.choice(self.ifaces), rng.choice(self.ifaces)
+                K = type('KTmp%d' % self.serial, (rng.choice(self.classes),), {})
+                classImplements(K, I1)
+                directlyProvides(K, I2)
+                o = K()
+                directlyProvides(o, I2)
+                out = [bool(I1.implementedBy(K)), bool(I2.providedBy(K)), bool(I2.providedBy(o)), bool(I1.providedBy(super(K, o))) in (True, False)]
+                refs = [weakref.ref(K), weakref.ref(implementedBy(K)), weakref.ref(K.__provides__)]
+                del K, o
+                gc.collect()
+                gc.collect()
+                out.append(('dead', [r() is None for r in refs]))
+                return out
+            self.emit('lifecycle of a temporary class', class_life)
+
+            def registry_life():
+                # a short-lived registry whose cached factory refers back to it
+                flav = type(self.regs[1])
+                R_ = flav((self.regs[0],))
+                I1, P1 = rng.choice(self.ifaces), rng.choice(self.ifaces)
+
+                class Back:
+                    def __init__(self, reg):
+                        self.reg = reg
+
+                    def __call__(self, ob):
+                        return None
+                R_.register([I1], P1, '', Back(R_))
+                R_.subscribe([I1], P1, Back(R_))
+                out = [R_.lookup([I1], P1) is not None, len(R_.subscriptions([I1], P1)), len(R_.lookupAll([I1], P1)),
+                       R_.lookup1(I1, P1) is not None]
+                refs = [weakref.ref(R_), weakref.ref(R_._v_lookup)]
+                del R_
+                gc.collect()
+                gc.collect()
+                out.append(('dead', [r() is None for r in refs]))
+                return out
+            self.emit('lifecycle of a temporary registry', registry_life)
+
     def op_cmp(self):
         rng = self.rng
         pool = self.ifaces + self.custom + [implementedBy(c) for c in self.classes]
